@@ -103,8 +103,12 @@ func (fc *FnCtx) oneGuard(st *State, g *Guard, vals map[string]Val, typs map[str
 			env.vars[k] = envVar{t, typs[k]}
 		}
 	}
-	goal := fc.transBool(env, g.Cond)
 	key := g.Kind + " " + g.Target + " " + g.Cond.Text
+	goal := fc.guardGoal(env, g.Cond)
+	if goal == nil {
+		fc.guardCount[key]++
+		return
+	}
 	fc.guardCount[key]++
 	ord := fc.guardCount[key] - 1
 	idx := 0
